@@ -1,0 +1,240 @@
+//! Verification hooks.
+//!
+//! This module only exists when the crate is built with
+//! `--cfg routinator_verif`. It provides a registry for a single, process
+//! wide handler that external verification machinery can install in order
+//! to observe and steer a small number of well-defined points in the code:
+//! synchronisation operations, explicit scheduling points, file system
+//! steps of the archive code, the HTTP transport of the RRDP collector, and
+//! a few fault injection points.
+//!
+//! Without a handler installed, all hooks are no-ops.
+
+use std::path::Path;
+use std::sync::{Arc, RwLock};
+
+
+//------------ LockMode ------------------------------------------------------
+
+/// How a lock is being acquired.
+#[derive(Clone, Copy, Debug, Eq, PartialEq)]
+pub enum LockMode {
+    /// Shared access to a read-write lock.
+    Read,
+
+    /// Exclusive access to a read-write lock.
+    Write,
+
+    /// A mutex.
+    Mutex,
+}
+
+
+//------------ RunOutcome ----------------------------------------------------
+
+/// A forced outcome of a validation run.
+#[derive(Clone, Copy, Debug, Eq, PartialEq)]
+pub enum RunOutcome {
+    /// Let the run proceed normally.
+    Proceed,
+
+    /// Fail the run with a retryable error.
+    Retry,
+
+    /// Fail the run with a fatal error.
+    Fatal,
+}
+
+
+//------------ HttpAnswer ----------------------------------------------------
+
+/// The answer of a fake HTTP transport.
+pub enum HttpAnswer {
+    /// A fabricated response.
+    Response(http_response::Response),
+
+    /// The transport failed.
+    ///
+    /// The hook turns this into a real `reqwest::Error` by connecting to
+    /// a port nobody listens on.
+    Unreachable,
+}
+
+pub mod http_response {
+    /// A fabricated HTTP response.
+    pub struct Response {
+        /// The status code.
+        pub status: u16,
+
+        /// The headers.
+        pub headers: Vec<(String, String)>,
+
+        /// The body.
+        pub body: Vec<u8>,
+
+        /// Whether to pass on the body length as content length.
+        pub known_length: bool,
+    }
+}
+
+
+//------------ Handler -------------------------------------------------------
+
+/// A handler for verification hooks.
+///
+/// All methods have default implementations that do nothing.
+pub trait Handler: Send + Sync + 'static {
+    /// An explicit scheduling point.
+    fn point(&self, _label: &'static str) { }
+
+    /// The current thread is about to acquire the given lock.
+    ///
+    /// When the method returns, the thread will go ahead and acquire.
+    fn acquire(&self, _lock: usize, _mode: LockMode) { }
+
+    /// The current thread has released the given lock.
+    fn release(&self, _lock: usize, _mode: LockMode) { }
+
+    /// A file system step is about to happen.
+    fn fs_point(&self, _kind: &'static str, _path: &Path) { }
+
+    /// An HTTP request is about to be made.
+    ///
+    /// If the method returns `None`, the real request is made.
+    fn http(
+        &self, _uri: &str,
+        _etag: Option<&[u8]>, _last_modified: Option<i64>,
+    ) -> Option<HttpAnswer> {
+        None
+    }
+
+    /// Possibly re-orders the entries of a manifest before processing.
+    ///
+    /// The slice contains the current position of each entry; the handler
+    /// may permute it.
+    fn manifest_order(&self, _manifest_uri: &str, _order: &mut [usize]) { }
+
+    /// Returns the forced outcome of the validation run about to start.
+    fn run_outcome(&self, _cache_dir: &Path) -> RunOutcome {
+        RunOutcome::Proceed
+    }
+
+    /// Returns whether the setup of the next RTR connection should fail.
+    fn rtr_setup_fails(&self) -> bool {
+        false
+    }
+}
+
+
+//------------ Registry ------------------------------------------------------
+
+static HANDLER: RwLock<Option<Arc<dyn Handler>>> = RwLock::new(None);
+
+/// Installs a handler, replacing any previously installed handler.
+pub fn install(handler: Arc<dyn Handler>) {
+    *HANDLER.write().unwrap_or_else(|err| err.into_inner()) = Some(handler);
+}
+
+/// Removes the installed handler.
+pub fn uninstall() {
+    *HANDLER.write().unwrap_or_else(|err| err.into_inner()) = None;
+}
+
+/// Returns the currently installed handler if there is one.
+pub fn handler() -> Option<Arc<dyn Handler>> {
+    HANDLER.read().unwrap_or_else(|err| err.into_inner()).clone()
+}
+
+
+//------------ Hook Functions ------------------------------------------------
+
+/// An explicit scheduling point.
+pub fn point(label: &'static str) {
+    if let Some(handler) = handler() {
+        handler.point(label)
+    }
+}
+
+/// A file system step is about to happen.
+pub fn fs_point(kind: &'static str, path: &Path) {
+    if let Some(handler) = handler() {
+        handler.fs_point(kind, path)
+    }
+}
+
+/// The current thread is about to acquire a lock.
+pub fn acquire<T: ?Sized>(lock: &T, mode: LockMode) {
+    if let Some(handler) = handler() {
+        handler.acquire(lock as *const T as *const () as usize, mode)
+    }
+}
+
+/// The current thread has released a lock.
+pub fn release(lock: usize, mode: LockMode) {
+    if let Some(handler) = handler() {
+        handler.release(lock, mode)
+    }
+}
+
+/// Returns the forced outcome of the validation run about to start.
+pub fn run_outcome(cache_dir: &Path) -> RunOutcome {
+    match handler() {
+        Some(handler) => handler.run_outcome(cache_dir),
+        None => RunOutcome::Proceed
+    }
+}
+
+/// Returns whether the setup of the next RTR connection should fail.
+pub fn rtr_setup_fails() -> bool {
+    match handler() {
+        Some(handler) => handler.rtr_setup_fails(),
+        None => false
+    }
+}
+
+
+//------------ Guard ---------------------------------------------------------
+
+/// A lock guard that reports its release.
+///
+/// The wrapped guard is dropped first, then the release is reported.
+pub struct Guard<G> {
+    guard: Option<G>,
+    lock: usize,
+    mode: LockMode,
+}
+
+impl<G> Guard<G> {
+    /// Reports the acquisition, acquires via the closure, wraps the guard.
+    pub fn acquire<T: ?Sized>(
+        lock: &T, mode: LockMode, op: impl FnOnce() -> G
+    ) -> Self {
+        acquire(lock, mode);
+        Guard {
+            guard: Some(op()),
+            lock: lock as *const T as *const () as usize,
+            mode
+        }
+    }
+}
+
+impl<G> Drop for Guard<G> {
+    fn drop(&mut self) {
+        drop(self.guard.take());
+        release(self.lock, self.mode);
+    }
+}
+
+impl<G: std::ops::Deref> std::ops::Deref for Guard<G> {
+    type Target = G::Target;
+
+    fn deref(&self) -> &Self::Target {
+        self.guard.as_ref().expect("guard present until drop")
+    }
+}
+
+impl<G: std::ops::DerefMut> std::ops::DerefMut for Guard<G> {
+    fn deref_mut(&mut self) -> &mut Self::Target {
+        self.guard.as_mut().expect("guard present until drop")
+    }
+}
